@@ -649,6 +649,10 @@ impl PlainSecretParams {
 
         match typ {
             EskType::V3_4 => {
+                ensure!(
+                    !decrypted_key.is_empty(),
+                    "unexpected empty decrypted_key for V3/4 ESK"
+                );
                 let sym_alg = SymmetricKeyAlgorithm::from(decrypted_key[0]);
                 ensure!(
                     sym_alg != SymmetricKeyAlgorithm::Plaintext,
